@@ -80,7 +80,9 @@ func (r *Run) callVF(caller *frame, pos token.Pos, fn *ssa.Function, args []Valu
 		r.assume(tAnd(tBVCmp("bvsge", ns, mkBV(64, 0)), tBVCmp("bvslt", ns, mkBV(64, 1000000))))
 		sub := tBVBin("bvadd", tBVBin("bvmul", ms, mkBV(64, 1000000)), ns) // d % 1e9
 		d := tBVBin("bvadd", tBVBin("bvmul", sec, mkBV(64, 1000000000)), sub)
-		r.kr[d] = krInfo{div: map[int64]*Term{1000000000: sec, 1000000: tBVBin("bvadd", tBVBin("bvmul", sec, mkBV(64, 1000)), ms)},
+		totalMs := tBVBin("bvadd", tBVBin("bvmul", sec, mkBV(64, 1000)), ms)
+		r.krBound[sec], r.krBound[ms], r.krBound[totalMs] = maxS, 999, maxS*1000+999
+		r.kr[d] = krInfo{div: map[int64]*Term{1000000000: sec, 1000000: totalMs},
 			rem: map[int64]*Term{1000000000: sub, 1000000: ns}}
 		r.kr[sub] = krInfo{div: map[int64]*Term{1000000: ms, 1000000000: mkBV(64, 0)}, rem: map[int64]*Term{1000000: ns, 1000000000: sub}}
 		return d
